@@ -59,6 +59,8 @@ def gen(tier, rng, cov):
                         # the configuration may come from the original or from a client that is itself reattached
                         o["src"] = rng.choice(["orig", "c2", "c3"])
                 cases.append({"name": "ra%d" % len(cases), "test_mode": tm, "proto": proto, "ops": ops})
+                if not tm and len(cases) % 3 == 0:
+                    cases[-1]["tls"] = "static"        # plugin and all clients share one certificate
                 # the same word on a plugin whose main() lingers after Serve has returned (listener closed, process
                 # still there): a Kill by whichever client must still end it (after the grace period)
                 if not tm and any(o["op"] == "Kill" and o["c"] != "c1" for o in ops) and not any(o["op"] in ("Freeze", "Crash") for o in ops) \
